@@ -32,7 +32,8 @@ def run_one(m):
             res.append((prop, r.returncode, r.stdout))
         verdicts = []
         for prop, rc, out in res:
-            hit = rc == 1 and ("rule " + m["rule"]) in out if m.get("rule") else rc == 1
+            want = (m.get("rules") or {}).get(prop, m.get("rule"))
+            hit = rc == 1 and (("rule " + want) in out if (want and not m.get("expect_any")) else True)
             verdicts.append("CAUGHT" if hit else ("BROKEN" if rc == 2 else "MISSED"))
         status = "CAUGHT" if all(v == "CAUGHT" for v in verdicts) else ",".join(verdicts)
         return m, status, "\n".join(o for _, _, o in res)
